@@ -6,3 +6,19 @@ reg("C09", "property-based testing: generated design recipes, uniquify+flatten, 
     "Exploration: thousands of generated named hierarchical netlists are flattened; an independent elaborator computes before-hand the set of leaf occurrences (slash path, definition, data) and the partition of leaf pin bits and top port bits into nets; after flatten the same is read directly off the flat top definition and compared for equality (the 'if and only if'), plus wf-core. Random search within bounds; no absence claim.",
     "Trusted: vf/model.py elaborator, recipe builder, Hypothesis. Uses uniquify to make shared designs unique (C08 decides uniquify itself).",
     "DESIGN.md 3 C09")
+reg("C01", "stateful property-based testing: generated operation histories over the whole public mutator alphabet, invariant checked after every step",
+    "Exploration: thousands of generated histories (valid and invalid arguments from the pool of every object ever created, incl. proxy outer pins, 1-2 netlists, both naming policies); after every step the containment/parent and pin/wire invariants are checked over the whole pool by identity and every reorder assignment is checked to be a permutation or a no-op. Bounded by history length (40/120) and universe size; no absence claim.",
+    "Trusted: vf/ops.py interpreter (argument resolution), the invariant checker in vf/props/c01.py, Hypothesis. Proxy OuterPin objects' own .wire field is not part of the invariant.",
+    "DESIGN.md 3 C01")
+reg("C02", "stateful property-based testing: operation histories weighted to port/pin edits on instanced definitions and reference changes, mirror invariant after every step",
+    "Exploration: generated histories; after every step every instance is in exactly its definition's reference set, its outer pins are exactly the definition's inner pins with correct back links and lookups, outer pins that vanished are off their wires, and an accepted re-point keeps (port index, pin index) -> wire. Bounded histories; no absence claim.",
+    "Trusted: vf/ops.py, checker in vf/props/c02.py, Hypothesis.",
+    "DESIGN.md 3 C02")
+reg("C14", "stateful property-based testing with fault-like invalid calls: identity-level snapshot of the whole universe before every call, equality demanded after every refused call",
+    "Exploration: generated histories in which ~25% of calls are refused (precondition or naming policy, compound constructors with colliding/illegal names and identifiers, near-miss reference changes); whenever a call raises, containment, parent pointers, connections, reference sets, instance pin maps, data, top instances, bundle attributes and the answers of all exact name/identifier lookups on the involved containers must equal the snapshot taken before the call. Bounded; no absence claim.",
+    "Trusted: vf/ops.py, snapshot/lookups in vf/props/c14.py, Hypothesis. Arguments are always of the documented type.",
+    "DESIGN.md 3 C14")
+reg("C19", "stateful property-based testing against a reference model: a recording listener replays announcements into a shadow model that must equal the real universe after every step; differential run without listeners",
+    "Exploration: generated histories with one or two recording CallbackListener subclasses (second one registered/removed mid-history, either order); mirror equality after every step (containment as sets, connections, references, top instance, data), before-state check at each first announcement, no phantom announcement after refused calls (veto by the namespace manager rolls the shadow back), and a differential run of the same history without listeners (same outcome trace and final state). Bounded; no absence claim.",
+    "Trusted: the shadow model in vf/props/c19.py, vf/ops.py, Hypothesis. Containment mirrored as sets (API carries no positions); bundle attributes are not announced kinds.",
+    "DESIGN.md 3 C19")
